@@ -65,7 +65,12 @@ def global_elem(m, name):
 
 def main():
     chk = Check('C04')
-    tasks = build(chk, os.environ.get('VERIF_ONLY', ''))
+    only = os.environ.get('VERIF_ONLY', '')
+    tasks = build(chk, only)
+    if not only or 'dep' in only:
+        from .common import include_dependency
+        include_dependency(chk, tasks, 'C16', 'dsm', '"the variable-time multiply used by verification" is entered through DoubleScalarMultBasepointVartime (same file), '
+                           'which wraps scalarMultVartimeGLV: its receiver/argument handling is decided here as well')
     chk.run_tasks(tasks)
     chk.discharge()
     chk.finish()
